@@ -483,7 +483,10 @@ func callAccessors(ev gomatrixserverlib.PDU, start int) []string {
 		func() string { return "Type=" + ev.Type() },
 		func() string { return "Content=" + string(ev.Content()) },
 		func() string { v, err := ev.JoinRule(); return fmt.Sprint("JoinRule=", v, err != nil) },
-		func() string { v, err := ev.HistoryVisibility(); return fmt.Sprint("HistoryVisibility=", v, err != nil) },
+		func() string {
+			v, err := ev.HistoryVisibility()
+			return fmt.Sprint("HistoryVisibility=", v, err != nil)
+		},
 		func() string { v, err := ev.Membership(); return fmt.Sprint("Membership=", v, err != nil) },
 		func() string {
 			v, err := ev.PowerLevels()
@@ -503,7 +506,10 @@ func callAccessors(ev gomatrixserverlib.PDU, start int) []string {
 		func() string { return fmt.Sprint("Depth=", ev.Depth()) },
 		func() string { return "JSON=" + string(ev.JSON()) },
 		func() string { return fmt.Sprint("AuthEventIDs=", ev.AuthEventIDs()) },
-		func() string { b, err := ev.ToHeaderedJSON(); return fmt.Sprint("ToHeaderedJSON=", string(b), err != nil) },
+		func() string {
+			b, err := ev.ToHeaderedJSON()
+			return fmt.Sprint("ToHeaderedJSON=", string(b), err != nil)
+		},
 		func() string { return fmt.Sprint("IsSticky=", ev.IsSticky(now, now)) },
 		func() string { return fmt.Sprint("StickyEndTime=", ev.StickyEndTime(now).Unix()) },
 	}
